@@ -42,10 +42,11 @@ def run(ctx, f, rep):
             on_map = "scc::" in ty or "scc::" in nm
             rep.check(not bad and on_map, "R12.1", "R12.1|%s|await|%s" % (label, short(nm) if nm else ty[:40]),
                       "%s awaits only the peer-map iterator, never a subscriber's sink (awaited: %s)" % (label, (nm or ty)[:90]), a["loc"])
-        writes = [(bb, fn) for bb, t, fn in co.calls() if fn and fn["name"] in ("send", "feed", "flush", "send_all", "start_send", "poll_flush", "poll_ready", "close") and
+        sc = pathq.scope(f, co)      # the send body and the private helpers it is written with
+        writes = [(bb, fn) for k in sc for bb, t, fn in k.calls() if fn and fn["name"] in ("send", "feed", "flush", "send_all", "start_send", "poll_flush", "poll_ready", "close") and
                   ("Sink" in fn["path"] or "Sink" in (fn.get("trait") or ""))]
         rep.check(not writes, "R12.1", "R12.1|%s|no-direct-sink-use" % label, "%s uses no Sink method directly (%s)" % (label, [fn["name"] for _, fn in writes]), co.loc())
-        ts = [bb for bb, t, fn in co.calls() if fn and fn["name"] == "try_send" and "TrySend" in (fn.get("trait") or fn["path"])]
+        ts = [bb for k in sc for bb, t, fn in k.calls() if fn and fn["name"] == "try_send" and "TrySend" in (fn.get("trait") or fn["path"])]
         rep.floor("R12.1", "%s: try_send call sites" % label, len(ts), 1)
         # ---- R12.3
         nfull = nio = nbp = 0
@@ -99,10 +100,18 @@ def run(ctx, f, rep):
                 elif vname == "Codec":
                     # is it the Io(..) arm with kind()==BrokenPipe ?
                     bp = None
+                    ek = f.foreign_enums.get("std::io::ErrorKind", {})
+                    bp_val = next((d for d, n in ek.items() if n == "BrokenPipe"), None)
                     for (e, c, _, _) in after:
                         if e[0] in ("pure", "call") and short(e[1]) in ("eq", "ne") and any("BrokenPipe" in show(a) for a in e[2]):
                             t = pathq.truth(c)
                             bp = t if short(e[1]) == "eq" else (not t)
+                        # matches!(e.kind(), ErrorKind::BrokenPipe) / match e.kind() { BrokenPipe => .. }: a switch on the kind's discriminant
+                        if e[0] == "discr" and bp_val is not None and pathq.mentions_call(e[1], lambda y: short(y[1]) == "kind" and "io::" in y[1]) is not None:
+                            if c[0] == "eq":
+                                bp = (c[1] == bp_val)
+                            elif c[0] == "notin" and bp_val in c[1]:
+                                bp = False
                     io_arm = any(e[0] == "discr" and c[0] == "eq" and "Codec" in show(e) and e[1][0] == "field" for (e, c, _, _) in after)
                     if bp is True:
                         nbp += 1
